@@ -34,6 +34,26 @@ pub broadcast axiom fn axiom_seq_as_slice(s: Seq<usize>)
     requires s.len() <= usize::MAX
     ensures (#[trigger] seq_as_slice(s))@ == s;
 
+pub broadcast proof fn lemma_slice_is_seq_as_slice(s: &[usize])
+    ensures #[trigger] seq_as_slice(s@) == s,
+{
+    assert(s@.len() == s.len());   // vstd: spec_slice_len(s) == s@.len(), a usize
+    axiom_seq_as_slice(s@);
+    assert(seq_as_slice(s@)@ =~= s@);
+}
+
+pub proof fn lemma_slice_len_bound_t<T>(s: &[T])
+    ensures s@.len() <= usize::MAX,
+{
+    assert(s@.len() == s.len());
+}
+
+pub proof fn lemma_slice_len_bound(s: &[usize])
+    ensures s@.len() <= usize::MAX,
+{
+    assert(s@.len() == s.len());
+}
+
 // assert!/assert_eq! failure paths become proof obligations (`requires false`).
 #[verifier::external_type_specification]
 pub struct ExAssertKind(core::panicking::AssertKind);
